@@ -1662,6 +1662,13 @@ class FX:
             if isinstance(f, ast.Attribute) and f.attr in ("eq", "connect", "Else", "Elif", "makedefault"):
                 return True
             if isinstance(f, ast.Name) and isinstance(env.get(f.id), Closure):
+                clo = env[f.id]
+                rets = [r.value for r in ast.walk(clo.fn) if isinstance(r, ast.Return) and r.value is not None]
+                # a helper that computes a value (a name, a number, an expression) is not a statement builder
+                if rets and all(isinstance(r, (ast.Constant, ast.JoinedStr, ast.Attribute, ast.Name, ast.BinOp, ast.Compare, ast.BoolOp, ast.Subscript))
+                                and not (isinstance(r, ast.Name) and isinstance(clo.env.get(r.id) if hasattr(clo, "env") else None, (PyList, Node)))
+                                for r in rets):
+                    return False
                 return True
         if isinstance(x, ast.Name) and isinstance(env.get(x.id), (PyList, Node)):
             return True
